@@ -2,6 +2,7 @@
 use crate::runner::PropDef;
 
 pub mod c01;
+pub mod c02;
 pub mod c03;
 pub mod c06;
 pub mod c07;
@@ -12,7 +13,7 @@ pub mod c16;
 pub mod c20;
 
 pub fn all() -> Vec<&'static PropDef> {
-    vec![&c01::DEF, &c03::DEF, &c06::DEF, &c07::DEF, &c09::DEF, &c10::DEF, &c11::DEF, &c16::DEF, &c20::DEF]
+    vec![&c01::DEF, &c02::DEF, &c03::DEF, &c06::DEF, &c07::DEF, &c09::DEF, &c10::DEF, &c11::DEF, &c16::DEF, &c20::DEF]
 }
 
 pub fn find(id: &str) -> Option<&'static PropDef> {
